@@ -160,6 +160,98 @@ func keys(m map[string]bool) []string {
 	return out
 }
 
+// fstate is the durable state of one file: how many of its statements have taken effect (a
+// prefix), what the revision records, and whether a revision row exists.
+type fstate struct {
+	lead, applied int
+	rev           bool
+}
+
+// expectedAfterCrash replays the instrumented points of one `migrate apply` over the target
+// files (DESIGN Appendix C) and returns the durable state of every file at the occ-th hit of
+// point p: in none mode every effect and revision write is durable at once, in file mode at the
+// file's commit, in all mode at the final commit. ok is false if the point is never reached.
+func (c *c10) expectedAfterCrash(before *observe.Dump, target []*MFile, p string, occ int) (map[int]fstate, bool) {
+	durable := map[int]fstate{}
+	for _, f := range c.files {
+		lead, _ := c.lead(before, f)
+		st := fstate{lead: lead}
+		if rev, ok := before.Rev(f.Version); ok {
+			st.applied, st.rev = rev.Applied, true
+		}
+		durable[f.Idx] = st
+	}
+	cur := map[int]fstate{}
+	for k, v := range durable {
+		cur[k] = v
+	}
+	commit := func() {
+		for k, v := range cur {
+			durable[k] = v
+		}
+	}
+	hits := map[string]int{}
+	crashed := false
+	at := func(name string) bool {
+		if crashed {
+			return true
+		}
+		hits[name]++
+		if name == p && hits[name] == occ {
+			crashed = true
+		}
+		return crashed
+	}
+	step := func() {
+		if c.mode == "none" {
+			commit()
+		}
+	}
+	for _, f := range target {
+		st := cur[f.Idx]
+		if at("apply:before-file") || at("exec:before-init-write") {
+			break
+		}
+		st.rev = true
+		cur[f.Idx] = st
+		step()
+		if at("exec:after-init-write") {
+			break
+		}
+		for st.applied < len(f.Stmts) {
+			if at("exec:before-stmt") {
+				break
+			}
+			st.lead = st.applied + 1
+			cur[f.Idx] = st
+			step()
+			if at("exec:after-stmt") {
+				break
+			}
+			st.applied++
+			cur[f.Idx] = st
+			step()
+			if at("exec:after-stmt-write") {
+				break
+			}
+		}
+		if crashed || at("exec:before-final-write") || at("exec:after-final-write") || at("apply:before-file-commit") {
+			break
+		}
+		if c.mode == "file" {
+			commit()
+		}
+		if at("apply:after-file-commit") {
+			break
+		}
+	}
+	if !crashed && !at("apply:before-final-commit") {
+		commit()
+		at("apply:after-final-commit")
+	}
+	return durable, crashed
+}
+
 func (c *c10) pending(d *observe.Dump) []*MFile {
 	var out []*MFile
 	for _, f := range c.files {
@@ -268,6 +360,23 @@ func C10(r *simkit.Run) {
 		c.check(d, fmt.Sprintf("after crash at %s#%d", p, occ), target, true)
 		if r.Failed() {
 			return
+		}
+		// Exact durable state for this crash point (Appendix C).
+		if exp, reached := c.expectedAfterCrash(before, target, p, occ); reached {
+			for _, f := range files {
+				lead, _ := c.lead(d, f)
+				got := fstate{lead: lead}
+				if rev, ok := d.Rev(f.Version); ok {
+					got.applied, got.rev = rev.Applied, true
+				}
+				if got != exp[f.Idx] {
+					r.Fail(propC10, "crash-state", fmt.Sprintf("crash-state/%s/%s", mode, p), "after a crash at %s (hit %d) in %s mode, %s should have %d statements in effect and a revision=%v recording %d; observed %d in effect, revision=%v recording %d (effects %s revisions [%s])", p, occ, mode, f.Name, exp[f.Idx].lead, exp[f.Idx].rev, exp[f.Idx].applied, got.lead, got.rev, got.applied, EffectVector(d, files), d.RevDigest())
+					return
+				}
+			}
+			r.Probe("crash-state-compared")
+		} else {
+			simkit.Harnessf("crash at %s#%d was observed but the point model never reaches it", p, occ)
 		}
 		// Restart model.
 		if !w.LeaseLeft() {
